@@ -101,7 +101,9 @@ def analyse(model, fn, contracts, fields_written_by=None, assume_entry=None, cla
             return (False, "index is not a linear form of tracked terms", buf, B)
         need = total - B if onepast else (total - B).shift(1)
         ok = st.lin_le0(need)
-        return (ok, "need %s %s %s" % (plin(total), "<=" if onepast else "<", plin(B)), buf, B)
+        # definitely outside: the state proves index >= bound (resp. > bound) on this path
+        past = (not ok) and st.lin_le0((B - total).shift(1) if onepast else (B - total))
+        return (ok, "need %s %s %s" % (plin(total), "<=" if onepast else "<", plin(B)) + (" -- and the path proves the opposite" if past else ""), buf, B, past)
 
     def visit(b, i, e, st):
         if e is None or "n" not in e or e.get("k"):
@@ -127,13 +129,13 @@ def analyse(model, fn, contracts, fields_written_by=None, assume_entry=None, cla
             if r[0] == "unclassified":
                 stats["unclassified"].append((fn.text(nid), fn.loc(nid)))
                 return
-            ok, why, buf, B = r
+            ok, why, buf, B = r[:4]
             terms = set()
             if il is not None:
                 terms |= st.expand(il).terms()
             terms |= B.terms()
             obs.append(Ob("ZB-read", fn, nid, fn.text(nid), ok, why,
-                          {"facts": fmt_state(st, terms)[:12], "block": b["id"]}))
+                          {"facts": fmt_state(st, terms)[:12], "block": b["id"], "past": bool(len(r) > 4 and r[4])}))
         elif k == "UnaryOperator" and n["op"] == "*":
             sub = n["ch"][0]
             pf = z.ptr_form(st, sub)
@@ -142,9 +144,9 @@ def analyse(model, fn, contracts, fields_written_by=None, assume_entry=None, cla
             seen.add(nid)
             stats["subscripts"] += 1
             r = check_access(b, st, nid, sub, Lin(), "deref")
-            ok, why, buf, B = r
+            ok, why, buf, B = r[:4]
             obs.append(Ob("ZB-read", fn, nid, fn.text(nid), ok, why,
-                          {"facts": fmt_state(st, st.expand(pf[1]).terms() | B.terms())[:12], "block": b["id"]}))
+                          {"facts": fmt_state(st, st.expand(pf[1]).terms() | B.terms())[:12], "block": b["id"], "past": bool(len(r) > 4 and r[4])}))
         elif k in ("CallExpr", "CXXMemberCallExpr"):
             seen.add(nid)
             nm, _ = fn.callee_name(nid)
@@ -228,6 +230,34 @@ def analyse(model, fn, contracts, fields_written_by=None, assume_entry=None, cla
                               {"facts": fmt_state(st, st.expand(la).terms() | st.expand(lb).terms())[:12], "block": b["id"]}))
 
     dataflow.replay(fn, z, states, visit)
+
+    # one step of path sensitivity for the *definite* verdict: an access that is not proven is re-examined under the state of
+    # every single edge into its block (a join of `p > last` with `p <= last && *p == c` forgets which disjunct was taken)
+    open_obs = [o for o in obs if o.rule == "ZB-read" and not o.ok and not o.detail.get("past")]
+    if open_obs:
+        by_block = {}
+        for o in open_obs:
+            by_block.setdefault(o.detail.get("block"), []).append(o)
+        blocks = fn.blocks()
+        for (pb, s_id, kind, payload, est) in dataflow.edge_states(fn, z, states):
+            if s_id not in by_block or est.bottom:
+                continue
+            b = blocks[s_id]
+            st = z.copy(est)
+            want = {o.nid: o for o in by_block[s_id]}
+            for e in b["el"]:
+                nid = e.get("n") if isinstance(e.get("n"), int) and not e.get("k") else None
+                if nid in want and not st.bottom:
+                    o = want[nid]
+                    n = fn.nodes[nid]
+                    if n["k"] == "ArraySubscriptExpr":
+                        r = check_access(b, st, nid, n["ch"][0], z.lin(st, n["ch"][1]), "subscript")
+                    else:
+                        r = check_access(b, st, nid, n["ch"][0], Lin(), "deref")
+                    if r is not None and len(r) > 4 and r[4]:
+                        o.detail["past"] = True
+                        o.why += " -- and on the path entering from block %s the opposite is proven: %s" % (pb["id"], "; ".join(fmt_state(st, st.expand(z.lin(st, n["ch"][1]) if n["k"] == "ArraySubscriptExpr" else Lin()).terms() | r[3].terms())[:6]))
+                z.transfer(fn, st, e, b)
 
     # class invariants over fields: proven on every exit
     exit_id = fn.cfg["exit"] if fn.cfg else None
